@@ -412,7 +412,54 @@ pub fn eval_limit(case: &J) -> Outcome {
     out
 }
 
+/// a table whose privacy unit carries a weight column: v(uid, w, key, amt), privacy unit (uid, weight w)
+fn gen_c04_weighted(rng: &mut Rng) -> J {
+    let n_units = rng.range(2, 12);
+    // most units sit in the common keys 0..2; a few own a rare key alone, with several rows of different weights
+    let mut rows: Vec<J> = vec![];
+    for u in 0..n_units { for _ in 0..rng.range(1, 3) { rows.push(json!([u, rng.range(1, 5), rng.range(0, 2), rng.range(0, 40) as f64 * 0.5])); } }
+    for r in 0..rng.range(1, 3) { let u = rng.below(n_units as u64) as i64; let key = 10 + r; for w in 1..=rng.range(2, 5) { rows.push(json!([u, w, key, rng.range(0, 40) as f64 * 0.5])); } }
+    json!({"weighted": true, "rows": rows, "sql": *rng.pick(&["SELECT key AS k0, sum(amt) AS c FROM v GROUP BY key", "SELECT key AS k0, count(amt) AS c FROM v GROUP BY key", "SELECT key AS k0 FROM v GROUP BY key"]),
+           "eps": *rng.pick(&[1.0, 50.0, 200.0]), "delta": *rng.pick(&[1e-2, 0.3, 0.45]), "share": *rng.pick(&[0.5, 0.9]), "groups": *rng.pick(&[2u64, 5, 8]), "hash": rng.chance(1, 2)})
+}
+
+fn eval_c04_weighted(case: &J) -> Outcome {
+    use qrlew::{builder::Ready, DataType, hierarchy::Hierarchy, privacy_unit_tracking::PrivacyUnit};
+    let mut out = Outcome::new();
+    out.tag("weighted-unit");
+    let sql = case["sql"].as_str().unwrap();
+    let table: Relation = Relation::table().name("v").schema(vec![("uid", DataType::integer_interval(0, 100)), ("w", DataType::integer_interval(1, 5)), ("key", DataType::integer_interval(0, 20)), ("amt", DataType::float_interval(0., 20.))].into_iter().collect::<qrlew::relation::Schema>()).size(1000).build();
+    let rels: Hierarchy<std::sync::Arc<Relation>> = vec![(vec!["v".to_string()], std::sync::Arc::new(table))].into_iter().collect();
+    let rel = match guarded(|| { let q = parse(sql).map_err(|e| e.to_string())?; Relation::try_from(QueryWithRelations::new(&q, &rels)).map_err(|e| e.to_string()) }) { Ok(Ok(r)) => r, _ => { out.tag("trivial"); return out; } };
+    let pu = PrivacyUnit::from((vec![("v", vec![], "uid", "w")], case["hash"].as_bool().unwrap_or(true)));
+    let (eps, delta, share, kk) = (case["eps"].as_f64().unwrap(), case["delta"].as_f64().unwrap(), case["share"].as_f64().unwrap(), case["groups"].as_u64().unwrap());
+    let p = DpParameters::new(eps, delta, share, 100.0, 1.0, kk);
+    let dp = match guarded(|| rel.rewrite_with_differential_privacy(&rels, None, pu.clone(), p.clone())) {
+        Ok(Ok(d)) => d, Ok(Err(_)) => { out.tag("trivial"); out.tag("dp-err"); return out; }
+        Err((loc, msg)) => { out.tag("trivial"); out.fail(&format!("C18/c04/rewrite-panic/{}", site(&loc, &msg)), format!("{sql}: {msg}")); return out; } };
+    let facts = ir::facts(dp.relation());
+    let rows: Vec<Vec<Cell>> = case["rows"].as_array().unwrap().iter().map(|r| vec![Cell::Int(r[0].as_i64().unwrap()), Cell::Int(r[1].as_i64().unwrap()), Cell::Int(r[2].as_i64().unwrap()), Cell::Real(r[3].as_f64().unwrap())]).collect();
+    let db = crate::exec::Db::new(RandomMode::Const(0.25));
+    db.create_table("v", &["uid", "w", "key", "amt"], &rows);
+    let res = match db.run(dp.relation()) { Ok(x) => x, Err(e) => { out.fail("C17/sqlite/dp-not-executable", format!("{sql}: {e}")); return out; } };
+    let mut units: BTreeMap<i64, std::collections::BTreeSet<i64>> = BTreeMap::new();
+    for r in &rows { if let (Cell::Int(u), Cell::Int(k)) = (&r[0], &r[2]) { units.entry(*k).or_default().insert(*u); } }
+    let Some((_, tau, _)) = facts.taus.first().cloned() else {
+        for r in &res.1 { if let Some(k) = r[0].as_f64() { if units.get(&(k as i64)).map_or(0, |s| s.len()) == 1 { out.fail("C02/exec/private-key-released-without-threshold", format!("{sql} (weighted privacy unit): no threshold, key {k} held by one unit is released")); break; } } }
+        return out; };
+    if !res.1.is_empty() { out.tag("keys-released"); }
+    for r in &res.1 {
+        let Some(k) = r[0].as_f64() else { continue };
+        let n = units.get(&(k as i64)).map_or(0, |s| s.len());
+        if !(n as f64 > tau) {
+            out.fail("C04/exec/rare-key-released", format!("{sql} with a weighted privacy unit (uid, w) and {:?}: with noise neutralised the key {k} is released although only {n} privacy unit(s) hold it and τ = {tau} (rows {})", p, case["rows"])); break;
+        }
+    }
+    out
+}
+
 pub fn gen_c04(rng: &mut Rng, _k: usize, _tier: &str) -> J {
+    if rng.chance(1, 5) { return gen_c04_weighted(rng); }
     // grouped by a private-valued key (thresholded), optionally with a public-valued one
     let (sql, keycols) = match rng.below(11) {
         // reduces whose outputs are all computed from the grouping column: nothing to noise, but the keys are private and have to be thresholded all the same
@@ -434,6 +481,7 @@ pub fn gen_c04(rng: &mut Rng, _k: usize, _tier: &str) -> J {
 }
 
 pub fn eval_c04(case: &J) -> Outcome {
+    if case["weighted"] == true { return eval_c04_weighted(case); }
     let mut out = Outcome::new();
     let sql = case["sql"].as_str().unwrap();
     let rels = world();
